@@ -11,6 +11,8 @@ var (
 	ErrRegionHeartbeatStale = errors.New("pd/core: stale region heartbeat epoch")
 	// ErrRegionRangeOverlap indicates the incoming region overlaps another region.
 	ErrRegionRangeOverlap = errors.New("pd/core: region range overlap")
+	// ErrInvalidRegionRange indicates the incoming region has an empty or inverted key range.
+	ErrInvalidRegionRange = errors.New("pd/core: invalid region range")
 	// ErrInvalidBatch indicates a requested allocation batch is invalid.
 	ErrInvalidBatch = errors.New("pd/core: invalid batch")
 )
